@@ -88,6 +88,78 @@ impl<I: Iterator> Iterator for Hinted<I> {
     }
 }
 
+/// "walk c1 a1 c2 a2 ...": a script of Iterator calls on one iterator of the crate, through the
+/// methods a caller would use (whatever the crate overrides is what runs):
+/// 0 next | 1 nth(a) | 2 by_ref().take(a) | 3 count() | 4 last() | 5 step_by(a).take(64) | 6 skip(a) drained | 7 fold
+pub fn walk_iter<T, I: Iterator<Item = T>>(o: W, mut it: I, acts: &[usize], show: &dyn Fn(W, &T) -> std::fmt::Result) -> std::fmt::Result {
+    let opt = |o: W, x: Option<T>| match x {
+        Some(v) => show(o, &v),
+        None => o.write_str("none"),
+    };
+    let list = |o: W, v: Vec<T>| {
+        o.write_str("[")?;
+        for (i, x) in v.iter().enumerate() {
+            if i > 0 {
+                o.write_str(" ")?;
+            }
+            show(o, x)?;
+        }
+        o.write_str("]")
+    };
+    o.write_str("[")?;
+    let mut k = 0;
+    while k + 1 < acts.len() {
+        if k > 0 {
+            o.write_str(" ")?;
+        }
+        let (c, a) = (acts[k], acts[k + 1]);
+        k += 2;
+        match c {
+            0 => opt(o, it.next())?,
+            1 => opt(o, it.nth(a))?,
+            2 => {
+                let v: Vec<T> = it.by_ref().take(a).collect();
+                list(o, v)?
+            }
+            3 => {
+                write!(o, "{}", it.count())?;
+                break;
+            }
+            4 => {
+                opt(o, it.last())?;
+                break;
+            }
+            5 => {
+                let v: Vec<T> = it.step_by(a.max(1)).take(64).collect();
+                list(o, v)?;
+                break;
+            }
+            6 => {
+                let mut v = Vec::new();
+                let mut sk = it.skip(a);
+                while let Some(x) = sk.next() {
+                    v.push(x);
+                    if v.len() > 100000 {
+                        break;
+                    }
+                }
+                list(o, v)?;
+                break;
+            }
+            7 => {
+                let v = it.fold(Vec::new(), |mut v, x| {
+                    v.push(x);
+                    v
+                });
+                list(o, v)?;
+                break;
+            }
+            _ => return Err(std::fmt::Error),
+        }
+    }
+    o.write_str("]")
+}
+
 pub trait Show {
     fn show(&self, o: W) -> std::fmt::Result;
 }
